@@ -535,6 +535,28 @@ fn c11_post(mut items: Vec<Item>) -> Vec<Item> {
             }
         }
     }
+    // a field may be overridden for ONE language (`#[typeshare(swift(type = "String"))]`): for every other language it still
+    // names its Rust type, and the definition it names must still come first there
+    for it in items.iter_mut() {
+        let sel = it.layout as usize;
+        let mut ov = |f: &mut Field, k: usize| {
+            if (sel + k) % 4 == 0 && !f.ty.user_refs().is_empty() {
+                let (lang, text) = [("swift", "String"), ("kotlin", "String"), ("typescript", "string"), ("go", "string")][(sel / 4 + k) % 4];
+                f.type_override = Some((lang.to_string(), text.to_string()));
+            }
+        };
+        match &mut it.kind {
+            Kind::Struct { shape: Shape::Named(fs), .. } => fs.iter_mut().enumerate().for_each(|(k, f)| ov(f, k)),
+            Kind::Enum { variants, .. } => {
+                for (vi, v) in variants.iter_mut().enumerate() {
+                    if let Payload::Struct { fields, .. } = &mut v.payload {
+                        fields.iter_mut().enumerate().for_each(|(k, f)| ov(f, k + vi));
+                    }
+                }
+            }
+            _ => {}
+        }
+    }
     let seed = items.first().map(|i| i.layout).unwrap_or(0);
     items.sort_by_key(|i| fnv(&[i.name.as_bytes(), &[seed]]));
     items
@@ -664,9 +686,12 @@ fn c12_oracle(ctx: &Ctx) -> Vec<Violation> {
                     if matches!(t, Ty::DateTime) {
                         direct.push((fl.name.clone(), "Date"));
                     }
+                    if matches!(t, Ty::Vec(i) if matches!(i.peel(), Ty::Prim(Prim::U8))) && ctx.cfg.type_mappings.get("Vec<u8>").map(|s| s.as_str()) == Some("Uint8Array") {
+                        direct.push((fl.name.clone(), "Uint8Array"));
+                    }
                 }
             }
-            if let Some((fname, special)) = direct.first() {
+            for (fname, special) in direct.iter() {
                 if uses.iter().any(|(n, _)| n == special) {
                     for helper in ["ReviverFunc", "ReplacerFunc"] {
                         let defined = ctx.text.contains(&format!("export const {helper} =")) || ctx.text.contains(&format!("export function {helper}("));
@@ -770,13 +795,33 @@ fn c12_post(mut items: Vec<Item>) -> Vec<Item> {
             fs.push(Field::new("due_at", ty));
         }
     }
+    // byte vectors (mapped to `bytes` / `Uint8Array` by some configurations) as a field AND in positions that are written
+    // after it: alias target, newtype-variant payload, element of a container
+    if items.first().map(|i| i.layout % 5 == 0).unwrap_or(false) && !items.iter().any(|i| i.name == "BlobHolder") {
+        let bytes = || Ty::Vec(Box::new(Ty::Prim(Prim::U8)));
+        items.push(Item::new("BlobHolder", Kind::Struct { shape: Shape::Named(vec![Field::new("raw", bytes()), Field::new("maybe_raw", Ty::Opt(Box::new(bytes())))]), rename_all: None }));
+        let sel = items[0].layout / 5;
+        if sel % 2 == 0 {
+            items.push(Item::new("ZBlobAlias", Kind::Alias { ty: bytes() }));
+        }
+        if sel % 3 != 1 {
+            let mut v = Variant::unit("Binary");
+            v.payload = Payload::Newtype(bytes());
+            items.push(Item::new("ZBlobEvent", Kind::Enum { variants: vec![v, Variant::unit("Nothing")], rename_all: None, tag: Some("type".into()), content: Some("content".into()) }));
+        }
+        if sel % 4 == 3 {
+            items.push(Item::new("ZBlobLists", Kind::Struct { shape: Shape::Named(vec![Field::new("chunks", Ty::Vec(Box::new(bytes())))]), rename_all: None }));
+        }
+    }
     items
 }
 fn c12_cfgs() -> BoxedStrategy<Cfg> {
     (cfg_strategy(), any::<bool>())
         .prop_map(|(mut c, bytes)| {
             if bytes {
-                c.type_mappings.insert("Vec<u8>".into(), "bytes".into());
+                // `bytes` is what Python wants, `Uint8Array` what TypeScript wants (one table for all languages here)
+                let v = if c.version_header { "Uint8Array" } else { "bytes" };
+                c.type_mappings.insert("Vec<u8>".into(), v.into());
             }
             c
         })
